@@ -1,7 +1,8 @@
 ------------------------------- MODULE MC_C35 -------------------------------
 (* C35: reloading a program is idempotent.                                                      *)
-(* TLC enumerates scenarios = (kinds of the two sources, API per source, three texts, a history *)
-(* shape over the operations 1 = s1 loads T1, 2 = s1 loads T2, 3 = s2 loads T3), walks the       *)
+(* TLC enumerates scenarios = (kinds of the two sources, API per source, three texts); each is   *)
+(* one session on one machine: the concatenation of all history shapes of 3-6 loads over the     *)
+(* operations 1 = s1 loads T1, 2 = s1 loads T2, 3 = s2 loads T3.  TLC walks the                   *)
 (* history through Loader!LoadText, checks the laws of the loader specification itself           *)
 (* (idempotence, replacement, independence of owners, footprint of a no-op load) and prints one  *)
 (* vector per history: the operations, the texts, and after every load the expected outcome of   *)
@@ -15,7 +16,7 @@ Code(f, cs, fl) == [fam |-> f, cs |-> cs, fl |-> fl]
 
 Singles == { {x} : x \in Flags }
 FlagSetsQ == Singles \cup {Flags}
-Pairs == { {x, y} : x \in Flags, y \in Flags }
+Pairs == { {x, y} : x \in {"dyn", "disc", "multi", "init", "op"}, y \in Flags }     \* includes the singletons of the first five
 FlagSetsT == Pairs \cup {Flags, {}} \cup { Flags \ {x} : x \in Flags }
 
 (* a fixed numbering of the flag sets so that the clause sets vary with them *)
@@ -28,7 +29,7 @@ FeatureTriples(FS) == { <<Code("x", (FlagIdx(fl) % 6) + 1, fl), Code("x", ((Flag
 (* clause-centred triples *)
 ClauseTriplesQ == { <<Code("x", cs, {}), Code("x", (cs % 6) + 1, {"disc"}), Code("y", 5, {"multi"})>> : cs \in 1..6 }
 ClauseTriplesT == { <<Code("x", c1, f1), Code("x", c2, {"disc", "dyn"}), Code("y", c3, {"multi", "disc"})>> :
-                      c1 \in 1..6, c2 \in 0..6, c3 \in {3, 4, 5, 6}, f1 \in {{}, {"multi", "dyn"}} }
+                      c1 \in 1..6, c2 \in {0, 3, 6}, c3 \in {3, 5}, f1 \in {{}, {"multi", "dyn"}} }
 Triples == IF Tier = "quick" THEN FeatureTriples(FlagSetsQ) \cup ClauseTriplesQ
            ELSE FeatureTriples(FlagSetsT) \cup ClauseTriplesT
 
@@ -36,8 +37,8 @@ Triples == IF Tier = "quick" THEN FeatureTriples(FlagSetsQ) \cup ClauseTriplesQ
 (* concatenated (the loader state is carried along; a Machine boot costs as much as a hundred loads)                    *)
 ShapeSeqQ == << <<1, 1, 1, 1>>, <<2, 2, 1, 1, 1>>, <<3, 1, 3, 1>>, <<2, 1, 2, 1>>, <<3, 3, 1, 1, 3, 3>>,
                 <<2, 3, 2, 3, 2>>, <<2, 2, 3, 1, 1>>, <<3, 3, 2, 2, 2, 1>> >>
-AllLen4 == [i \in 1..81 |-> <<(((i - 1) \div 27) % 3) + 1, (((i - 1) \div 9) % 3) + 1, (((i - 1) \div 3) % 3) + 1, ((i - 1) % 3) + 1>>]
-ShapeSeqT == ShapeSeqQ \o AllLen4 \o << <<1, 1, 1, 1, 1>>, <<3, 3, 3, 3, 3>>, <<2, 2, 2, 2, 2>> >>
+AllLen3 == [i \in 1..27 |-> <<(((i - 1) \div 9) % 3) + 1, (((i - 1) \div 3) % 3) + 1, ((i - 1) % 3) + 1>>]
+ShapeSeqT == AllLen3 \o << <<1, 1, 1, 1, 1>>, <<3, 3, 3, 3, 3>>, <<2, 2, 2, 2, 2>> >>
 RECURSIVE Flat(_)
 Flat(ss) == IF ss = <<>> THEN <<>> ELSE Head(ss) \o Flat(Tail(ss))
 Slots == Flat(IF Tier = "quick" THEN ShapeSeqQ ELSE ShapeSeqT)
